@@ -137,6 +137,16 @@ def i16ok (n : Int) : Bool := -32768 ≤ n && n ≤ 32767
 def i32ok (n : Int) : Bool := -2147483648 ≤ n && n ≤ 2147483647
 def i64ok (n : Int) : Bool := -9223372036854775808 ≤ n && n ≤ 9223372036854775807
 
+/-- timestamps a JSON document can carry (years 0 .. 9999); others are reported as the zero time -/
+def timeok (n : Int) : Bool := -62167219200 ≤ n && n ≤ 253402300799
+
+theorem clampTime_ok (t : Int) (h : timeok t = true) : clampTime t = t := by
+  simp only [timeok, Bool.and_eq_true, decide_eq_true_eq] at h
+  unfold clampTime
+  split
+  · omega
+  · rfl
+
 mutual
   /-- values the wire format can carry: integers within their width, lengths that fit their
       prefix (and stay below 2³¹, beyond which the reader gives up) -/
@@ -151,7 +161,7 @@ mutual
     | .decimal s v => decide (s < 256) && i32ok v
     | .str s => decide (s.length ≤ 2147483647)
     | .arr xs => confFs xs && decide ((encFVals xs).length < 4294967296)
-    | .time t => i64ok t
+    | .time t => timeok t
     | .table kvs => confPairs kvs && decide ((encPairs kvs).length ≤ 2147483647)
     | .nil => true
     | .bytes b => decide (b.length ≤ 2147483647)
@@ -283,9 +293,11 @@ mutual
       cases fuel with
       | zero => simp [needF] at hf
       | succ f =>
-        simp only [confF, i64ok, Bool.and_eq_true, decide_eq_true_eq] at hc
+        simp only [confF] at hc
+        have hck := clampTime_ok t hc
+        simp only [timeok, Bool.and_eq_true, decide_eq_true_eq] at hc
         obtain ⟨u, hu, hs⟩ := readUInt_beInt 8 (by simp) t (by simp; omega) rest tail
-        simp [readField, encFVal, readUInt1, hu, hs]
+        simp [readField, encFVal, readUInt1, hu, hs, hck]
     | .table kvs, hc, fuel, hf, rest, tail => by
       cases fuel with
       | zero => simp [needF] at hf
@@ -455,7 +467,7 @@ def confArg : Kind → Arg → Bool
   | .shortstr, .shortstr s => decide (s.length < 256)
   | .longstr, .longstr s => decide (s.length ≤ 2147483647)
   | .table, .table t => confPairs t && decide ((encPairs t).length ≤ 2147483647)
-  | .timestamp, .timestamp t => i64ok t
+  | .timestamp, .timestamp t => timeok t
   | .bits names, .bits bs => decide (names.length = bs.length) && decide (bs.length ≤ 8)
   | _, _ => false
 
@@ -493,9 +505,10 @@ theorem readKind_enc (name : String) (k : Kind) (a : Arg) (hc : confArg k a = tr
       simp only [encArg, encTable, List.length_append, be_length] at hf; omega) rest tail
     simp [readKind, encArg, this, kindNames, argToAVal, Except.map]
   · rename_i t
-    simp only [i64ok, Bool.and_eq_true, decide_eq_true_eq] at hc
+    have hck := clampTime_ok t hc
+    simp only [timeok, Bool.and_eq_true, decide_eq_true_eq] at hc
     obtain ⟨u, hu, hs⟩ := readUInt_beInt 8 (by simp) t (by simp; omega) rest tail
-    simp [readKind, encArg, hu, hs, kindNames, argToAVal, Except.map]
+    simp [readKind, encArg, hu, hs, hck, kindNames, argToAVal, Except.map]
   · rename_i names bs
     have hp := zipIdx_pack bs 0
     simp only [Nat.pow_zero, Nat.one_mul] at hp
